@@ -38,6 +38,19 @@ TASK: you play a maintainer. Produce THREE independent source changes (b1, b2, b
 DELIVERABLES in {wt}/out/ (a file out/go.mod containing `module out` already exists): b1.diff (output of `git diff`, only non-test sources), b1.md, likewise b2, b3. Verify each yourself (build + suite with the patch applied). At the end restore the worktree sources (git checkout -- .). Final answer: a 4-line summary.
 '''
 
+THEME = BREAK.replace("must need something specific to manifest, not something ordinary use would expose at once:", "must need something specific to manifest, not something ordinary use would expose at once. FOR THIS TASK THE MANIFESTATION CONDITION IS PRESCRIBED: {theme} Within that, think of:")
+
+PERMITTED = PRE + '''
+The module is supposed to satisfy these 20 PROPERTIES (statements):
+{props}
+
+TASK: you play a maintainer who changes BEHAVIOUR, but only in ways these 20 statements PERMIT. Produce THREE independent source changes (p1, p2, p3) (non-test code only) after which every one of the 20 statements above is still true for every history, although observable behaviour differs from today in some respect the statements leave open. Your focus area: {focus}. Read the statements closely for what they do NOT fix, for example: the order in which independent contexts / requests of one block are processed; which events are emitted, their attributes and order; error codes and messages of rejections; when exactly (earlier than required) finished or useless records are cleaned up; whether a rejected operation is rejected by stateless or stateful validation; additional validation that rejects inputs nobody needs (only where no statement promises acceptance); extra bookkeeping records under unused store prefixes; extra fields in query answers; rounding choices where the statement gives a range; the moment inside a step at which coins move. Each change must be realistic, 15-100 changed lines, must compile (go build ./...) and the complete existing test suite must still pass unchanged. For each change explain in p<i>.md (first line exactly `PERMITTED`) what behaviour changed and, statement by statement where relevant, why each of the 20 properties still holds. If you are not sure a property still holds, drop the change and make another.
+
+''' + HOWTO + '''
+
+DELIVERABLES in {wt}/out/ (a file out/go.mod containing `module out` already exists): p1.diff (output of `git diff`, only non-test sources), p1.md, likewise p2, p3. Verify each yourself (build + suite with the patch applied). At the end restore the worktree sources (git checkout -- .). Final answer: a 4-line summary.
+'''
+
 FOCUS = {
  'A': 'abci.go (end-of-block processing: expiry handling and new batches) and keeper/invocation.go',
  'B': 'keeper/binding.go, keeper/definition.go, keeper/fees.go',
@@ -46,8 +59,21 @@ FOCUS = {
  'E': 'types/keys.go (helpers only: the byte layout of every key must not change), types/invocation.go, types/binding.go, types/msgs.go (validation messages only), keeper/oracle_price.go, keeper/params.go',
 }
 
+THEMES = {
+ 'long': 'the change must stay invisible for at least 25 blocks or 10 batches of one context and show only after that (counters crossing a boundary, accumulated volume or earnings, a value that drifts, state left behind by a much earlier operation).',
+ 'many': 'the change must show only when many objects of one kind exist at once (at least 8: providers in one context, contexts due in one block, bindings of one service or owner, requests pending for one provider, services with related names).',
+ 'modapi': 'the change must show only through the API that OTHER MODULES use (keeper.CreateRequestContext with a module name, Update/Pause/Start/Kill by the module, RegisterResponseCallback / RegisterStateCallback and what the callbacks see and do, RegisterModuleService and RequestModuleService); contexts created by ordinary MsgCallService must behave exactly as before.',
+ 'genesis': 'the change must show only around genesis: ExportGenesis, PrepForZeroHeightGenesis, ValidateGenesis, InitGenesis (also of a genesis written by a host chain by hand), and what happens on the chain AFTER an import (the imported state must then misbehave, or the export must lose / alter something).',
+ 'params': 'the change must show only when a module parameter (max request timeout, service fee tax, slash fraction, complaint retrospect, arbitration time limit, tx size limit - not the minimum deposit terms or the base denomination) is CHANGED by governance while objects created under the old value still exist.',
+ 'bytes': 'the change must show only for unusual but valid byte patterns: addresses of unusual length or with particular bytes, service names that are prefixes of one another or contain separators, JSON texts with unusual but valid syntax (whitespace, escapes, big numbers, duplicate keys, nested objects), transaction hashes with particular bytes.',
+ 'sameblock': 'the change must show only when two or more specific operations fall into the SAME block or the same transaction (several messages of one transaction, a message in the very block in which a batch starts or expires, two contexts of one consumer or one provider due in one block, expiry and next start in one block).',
+ 'twosites': 'the change must consist of TWO edits in different functions (preferably different files) such that each edit alone leaves the property intact and only both together break it.',
+ 'order': 'the change must alter the ORDER of two operations inside one function (a write before a check, a delete before a read, a transfer before a record update, an event before a state change, an iteration that mutates what it iterates) in a way that is harmless in ordinary flows.',
+ 'numeric': 'the change must be about NUMBERS: integer/decimal conversions, truncation vs rounding, int64/uint64/uint32 casts, comparisons (< vs <=), zero and negative values, very large amounts, multiplication order, values near 2^31, 2^32, 2^63.',
+}
+
 for id in ids:
-    wt = f'/tmp/w{tag}-{id}'
+    wt = f'/tmp/w{tag}-{id.replace("@", "-")}'
     subprocess.run(['git', '-C', '/repo', 'worktree', 'add', '--detach', wt, 'HEAD', '-q'], check=True)
     os.makedirs(wt + '/out', exist_ok=True)
     open(wt + '/out/go.mod', 'w').write('module out\n')
@@ -55,6 +81,14 @@ for id in ids:
         p = byid[id]
         rec = json.dumps({k: p[k] for k in ('id', 'title', 'statement', 'quantifier', 'why_tests_cant', 'anchors')}, indent=1)
         txt = BREAK.format(wt=wt, rec=rec, pid=id)
+    elif kind == 'theme':
+        pid, th = id.split('@')
+        p = byid[pid]
+        rec = json.dumps({k: p[k] for k in ('id', 'title', 'statement', 'quantifier', 'why_tests_cant', 'anchors')}, indent=1)
+        txt = THEME.format(wt=wt, rec=rec, pid=pid, theme=THEMES[th])
+    elif kind == 'permitted':
+        ptxt = '\n'.join(f"- {p['id']} ({p['title']}): {p['statement']}" for p in props)
+        txt = PERMITTED.format(wt=wt, props=ptxt, focus=FOCUS[id[0]])
     else:
         ptxt = '\n'.join(f"- {p['id']} ({p['title']}): {p['statement']}" for p in props)
         txt = BENIGN.format(wt=wt, props=ptxt, focus=FOCUS[id])
